@@ -214,6 +214,9 @@ TraceJobEnd ==
     /\ BodyEnd(Line.id)
     /\ UNCHANGED ptaken
 
+\* a remark of the driver (directed schedules: a job goroutine held / released)
+TraceNote == IsEvent("Note") /\ UNCHANGED vars /\ UNCHANGED ptaken
+
 \* a copy of pendingAttestations / the answer of HasPendingAttestations
 TraceProbe == IsEvent("Probe") /\ InTime /\ SetOf(Line.pend) = pending /\ UNCHANGED vars /\ UNCHANGED ptaken
 TraceHas == IsEvent("Has") /\ InTime /\ Line.has = (Line.s \in pending) /\ UNCHANGED vars /\ UNCHANGED ptaken
@@ -236,7 +239,7 @@ TraceNext ==
     \/ TraceHead \/ TraceReorg \/ TraceClock
     \/ TraceTick \/ TracePrepStart \/ TraceExists \/ TraceRun \/ TraceCancel \/ TraceFetch \/ TraceSched
     \/ TraceJobStart \/ TraceSign \/ TraceJobEnd \/ TraceProbe \/ TraceHas
-    \/ TraceHeadDone
+    \/ TraceHeadDone \/ TraceNote
     \/ TraceJump \/ TraceReader \/ TracePrepTake \/ TraceSilent
 
 TraceSpec == TraceInit /\ [][TraceNext]_tvars
@@ -244,6 +247,16 @@ TraceSpec == TraceInit /\ [][TraceNext]_tvars
 \* S1 at system level: promised while the environment kept EnvWindow (a run that starts two epochs late
 \* on a stalled machine is outside what the attester is specified for: Attester.tla, EnvWindow)
 NoDoubleSignEnv == envViol \/ NoDoubleSign
+
+(* S3 / S4 on traces.  The one way the composition can break them is the scheduler's cancel-on-a- *)
+(* fired-timer (state xrace, see Vouch.tla and docs/Vouch.md: recorded as an open finding under   *)
+(* C03): a trace in which that happened by itself is not judged on them here (it happens within  *)
+(* microseconds and never reproduces); Trace_Vouch_strict.cfg judges it - the directed schedule   *)
+(* that holds the job goroutine at that point must be rejected there as long as the finding is    *)
+(* open.                                                                                         *)
+Raced == \E x \in runs : x.canc
+SlotOnceX == Raced \/ SlotOnce
+PendingExactX == Raced \/ PendingExact
 
 HWM == UpdateHWM(l)
 TraceAccepted == TraceAcceptedUpTo
